@@ -395,6 +395,13 @@ def fc_law_monitors(chk, tier, only=None):
 
 
 CORPUS = [
+    # two modes whose shifts differ by less than 1e-3 (Huang-Rhys factors 1/2 and 1/2 + 2^-11), and a mode with a very small shift
+    {"kind": "agg", "mult": 1, "J": [[0, 3], [3, 0]],
+     "mols": [{"E": 11, "dip": [1, 0, 0], "modes": [{"omega": 2, "nmax": [2, 3], "hr": 0.5}]},
+              {"E": 13, "dip": [0, 1, 0], "modes": [{"omega": 3, "nmax": [3, 2], "hr": 0.50048828125}]}]},
+    {"kind": "agg", "mult": 1, "J": [[0, -2], [-2, 0]],
+     "mols": [{"E": 11, "dip": [1, 1, 0], "modes": [{"omega": 1, "nmax": [2, 2], "hr": 2.0 ** -22}]},
+              {"E": 12, "dip": [0, 1, 1], "modes": [{"omega": 2, "nmax": [2, 2], "hr": 0.0}]}]},
     {"kind": "agg", "mult": 2, "J": [[0, 4], [4, 0]],
      "mols": [{"E": 10, "dip": [1, 2, 0], "modes": [{"omega": 1, "nmax": [2, 3], "hr": 0.5}, {"omega": 2, "nmax": [2, 2], "hr": 0.25}]},
               {"E": 12, "dip": [0, 1, 1], "modes": [{"omega": 3, "nmax": [3, 2], "hr": 0.125}]}]},
